@@ -3,6 +3,7 @@
 setup: scan coq drivers
 	@echo setup done
 coq:
+	python3 tools/extract_params.py
 	cd coq && coq_makefile -f _CoqProject -o Makefile && timeout 3000 $(MAKE) -j16 -f Makefile
 drivers: coq
 	python3 tools/build_drivers.py
